@@ -165,12 +165,52 @@ Qed.
    rendered there, and the caller's scope chain is what it was *)
 Theorem component_use_renders cx f en ln cid name l1 pairs slots ss :
   eval_stmt cx (S f) en (SComponent ln cid name (Some (EObj l1 pairs)) slots (Some ss)) =
-  (let! kvs := eval_pairs cx f en (asort pairs) in
-   let en1 := fold_left (fun e kv => env_set_ignore e (fst kv) (snd kv)) kvs ([] :: en) in
+  (let! en1 := bind_args cx f ln en (asort pairs) ([] :: en) in
    let! r := eval_program cx f en1 ss [] in
    Ok (VComponent (VHtml (fst r)), tl (snd r))).
+Proof. reflexivity. Qed.
+
+(* when the arguments can be bound, EVERY one of them is: each key (keys are distinct) is visible
+   in the component's scope with the value its expression has at the place of use, and every other
+   name keeps the binding it had there *)
+Lemma bind_args_binds cx f ln en ps : forall ne ne',
+  ne <> [] -> NoDup (map fst ps) -> bind_args cx f ln en ps ne = Ok ne' ->
+  (forall k x, In (k, x) ps -> exists v, eval_expr cx f en x = Ok v /\ env_get ne' k = Some v) /\
+  (forall k2, ~ In k2 (map fst ps) -> env_get ne' k2 = env_get ne k2).
 Proof.
-  cbn [eval_stmt]. destruct (eval_pairs cx f en (asort pairs)); reflexivity.
+  induction ps as [|[k x] ps IH]; intros ne ne' Hne Hnd H; cbn [bind_args] in H.
+  - inversion H; subst. split; [intros k x []|reflexivity].
+  - destruct (eval_expr cx f en x) as [v| | | |] eqn:Ev; try discriminate.
+    destruct (env_set ne k v) as [ne1|msg] eqn:Es; [|discriminate].
+    inversion Hnd as [|? ? Hnk Hnd']; subst.
+    pose proof (Scopes.env_set_nonempty ne k v ne1 Es) as Hne1.
+    destruct (IH ne1 ne' Hne1 Hnd' H) as [A B]. split.
+    + intros k0 x0 [E|I].
+      * inversion E; subst k0 x0. exists v. split; [exact Ev|].
+        rewrite (B k Hnk). exact (Scopes.env_set_get_same ne k v ne1 Hne Es).
+      * exact (A k0 x0 I).
+    + intros k2 Hk2. cbn [map fst] in Hk2.
+      rewrite B by (intro I; apply Hk2; right; exact I).
+      apply (Scopes.env_set_get_other ne k v ne1 k2 Hne); [|exact Es].
+      destruct (bytes_eqb k2 k) eqn:E; [|reflexivity]. apply bytes_eqb_eq in E. subst k2.
+      exfalso. apply Hk2. left. reflexivity.
+Qed.
+
+(* an argument that cannot be bound - its name is visible at the place of use with a value of
+   another type, or is the reserved name loop - fails the render at the component's line; it is
+   never skipped silently *)
+Lemma bind_args_refusal cx f ln en k x ps ne v msg :
+  eval_expr cx f en x = Ok v -> env_set ne k v = inr msg ->
+  bind_args cx f ln en ((k, x) :: ps) ne = Fail ln msg.
+Proof. intros Ev Es. cbn [bind_args]. rewrite Ev, Es. reflexivity. Qed.
+
+Theorem component_argument_that_cannot_be_bound_fails cx f en ln cid name l1 k x slots ss v msg :
+  eval_expr cx f en x = Ok v -> env_set ([] :: en) k v = inr msg ->
+  eval_stmt cx (S f) en (SComponent ln cid name (Some (EObj l1 [(k, x)])) slots (Some ss)) = Fail ln msg.
+Proof.
+  intros Ev Es. rewrite component_use_renders. cbn [asort]. 
+  change (asort [(k, x)]) with [(k, x)].
+  rewrite (bind_args_refusal cx f ln en k x [] ([] :: en) v msg Ev Es). reflexivity.
 Qed.
 
 (* a slot placeholder shows the body the caller passed, or nothing *)
